@@ -31,7 +31,7 @@ class Cli:
             _local.home = h
         return h
 
-    def run(self, args, cwd, stdin=None, timeout=60, env=None):
+    def run(self, args, cwd, stdin=None, timeout=60, env=None, raw=False):
         h = self._home()
         e = dict(os.environ)
         e.update({"HOME": h, "OCTOSQL_NO_TELEMETRY": "1", "XDG_CONFIG_HOME": h + "/.config", "XDG_DATA_HOME": h + "/.data", "XDG_CACHE_HOME": h + "/.cache"})
@@ -39,14 +39,14 @@ class Cli:
             e.update(env)
         try:
             p = subprocess.run([self.bin] + args, cwd=cwd, env=e, input=stdin, stdout=subprocess.PIPE, stderr=subprocess.PIPE, timeout=timeout)
-            return p.returncode, p.stdout.decode("utf-8", "replace"), p.stderr.decode("utf-8", "replace")
+            return p.returncode, p.stdout if raw else p.stdout.decode("utf-8", "replace"), p.stderr.decode("utf-8", "replace")
         except subprocess.TimeoutExpired as ex:
-            return -9, (ex.stdout or b"").decode("utf-8", "replace"), "TIMEOUT after %ss" % timeout
+            return -9, (ex.stdout or b"") if raw else (ex.stdout or b"").decode("utf-8", "replace"), "TIMEOUT after %ss" % timeout
 
     def run_many(self, jobs, workers=16):
         """jobs: list of dict(args, cwd, stdin?, timeout?) -> list of (rc, out, err) in order"""
         with ThreadPoolExecutor(max_workers=workers) as ex:
-            return list(ex.map(lambda j: self.run(j["args"], j["cwd"], j.get("stdin"), j.get("timeout", 60), j.get("env")), jobs))
+            return list(ex.map(lambda j: self.run(j["args"], j["cwd"], j.get("stdin"), j.get("timeout", 60), j.get("env"), j.get("raw", False)), jobs))
 
 
 def panicked(err):
